@@ -36,6 +36,7 @@ func init() {
 		Rule: "case = a batch of messages. Cached-output message = a PRNG map block id -> Item(block number at varint boundaries 2^(7k)-1, 2^(7k), 2^64-1; id; nil/zero/negative/boundary timestamp; cursor; nil/empty/varint-boundary-length payload), 0..5000 items, keyed by Item.BlockId as storage/execout/file.go does: " +
 			"Map.MarshalFast -> proto.Unmarshal(Array) == items; proto.Marshal(Array) and Array.MarshalVT -> Map.UnmarshalFast == map; MarshalFast -> UnmarshalFast == map. " +
 			"Store content = PRNG kv (0..5000 entries, nil/empty/large values) + deleted prefixes: every marshaller (Default, VTproto, Proto, ProtoingFast, Binary without prefixes) reads back what it wrote; ProtoingFast/VTproto bytes decode with proto.Unmarshal(StoreData) and Proto bytes with VTproto; the size reported by the default marshaller (and VTproto) == sum(len k+len v). " +
+			"The bytes a marshaller returned must not change when the same marshaller object encodes a second, smaller content (the next boundary's snapshot is saved while the previous write may still be pending). " +
 			"File part (plain mode): a cached-output file through the real execout.File Save/ReadFile with a first upload attempt that fails, and a store snapshot through the real Save/Load whose FIRST download is cut (on an entry boundary or anywhere) and whose retry succeeds: content as written and SizeBytes() at load == sum(len k+len v). " +
 			"Families alternate: valid UTF-8 strings (all directions demanded) and arbitrary bytes (only what the schema-free codecs VTproto/Binary/default promise is demanded; everything else is counted as obs_*). A few free-form maps (key != BlockId) are run and only counted. " +
 			"non-trivial = message with >=2 items of which one has a timestamp and one a multi-byte varint, or store content with >=2 entries and >=1 prefix; distinct by content hash",
@@ -683,6 +684,24 @@ func runStoreContent(c *fw.Case, idx int) {
 			continue
 		}
 		encoded[x.name] = enc
+		if demanded {
+			// the bytes of a snapshot must stay what they are when the SAME marshaller encodes the store's next (not larger)
+			// snapshot: the squasher saves the next boundary while the previous write may still be pending
+			keep := append([]byte(nil), enc...)
+			d2 := fresh()
+			drop := 0
+			for k := range d2.Kv {
+				if drop%2 == 0 {
+					delete(d2.Kv, k)
+				}
+				drop++
+			}
+			if _, err := x.m.Marshal(d2); err == nil && !bytes.Equal(enc, keep) {
+				c.Violation("C18/marshaller/"+x.name+"/encoding-overwritten-by-next-marshal", x.name+": the bytes returned by Marshal changed when the same marshaller encoded a second, smaller content", wit(x.name, keep))
+				return
+			}
+			c.Count("second_marshal_on_same_marshaller", 1)
+		}
 		out, size, err := x.m.Unmarshal(enc)
 		if err != nil {
 			if demanded {
